@@ -956,7 +956,7 @@ class DFA:
                     if relevant_values == {DFTransition.Else}: # wildcard notation hard to represent
                         rv_suffix = ""
                     else:
-                        relevant_values_in_msg = relevant_values - {DFTransition.Else}
+                        relevant_values_in_msg = {x for x in relevant_values if isinstance(x, str)}
                         if len(relevant_values_in_msg) >= 3:
                             relevant_values_in_msg = list(relevant_values_in_msg)[:3]
                         if ProgramData.do(ProgramFlag.CODEPOINTS_IN_ERRORS):
